@@ -345,6 +345,14 @@ pub fn run(report: &Report) {
     // (i) classification mode over the C19 and C10 spaces
     super::mfamily::run(report, "C20");
     super::c10::run_with(report, "C20");
+    // the Python front end hands out and takes numpy arrays: a result that still points into a coder's buffer, or an
+    // object that still points into the caller's array, is memory the safe side of the API must never expose
+    super::pyfront::sweep(report, "views", 3,
+        "Python front end: arrays returned by the coders stay what they were while the coder is used on (40 steps, across reallocations of its buffer); objects built from arrays do not follow later writes to those arrays",
+        &["returned array", "still refers"], &[]);
+    super::pyfront::sweep(report, "callbacks", 0,
+        "Python front end: CustomModel callbacks returning ints, bools, numpy scalars or Fractions are refused or read as the same number; callbacks that are not cdfs never bring the interpreter down",
+        &["another numeric type", "not a cdf"], &[]);
 }
 
 pub fn replay(case: &serde_json::Value) -> Result<String, String> {
